@@ -47,6 +47,12 @@ GROUP = dict(
                   'never a mixture, never a diff from elsewhere, no panic.',
              bound='the non-tree DAGs on 3 or 4 nodes whose only version with several parents is the last one x every assignment of 4 states {0, 3, 5, 7} to the other versions x every assignment of these 4 states to the '
                    'edges into the last version, each under 3 numberings of the versions; 43776 cases (37440 with paths that really differ)'),
+        dict(name='every_small_graph_with_a_cycle_is_refused_or_answers_only_outside_the_cycle', props=['C05'], tier='quick', timeout=900,
+             text='A cycle is reported as an error however it is reached: for every directed graph over the root and three more versions with at most five edges that holds a cycle '
+                  '(entered by one edge, by several, over two branches, through the root, apart from it, several cycles) either resolve refuses, or get / apply_diffs refuse every version on a cycle '
+                  'while every other version is refused or reported exactly; never a panic.',
+             bound='all subsets of at most 5 of the 12 edges between 4 versions that contain a cycle x 2 naming schemes (plain; client~server halves) x every creation order for up to 4 files, '
+                   '2n rotations / reversed rotations of the n files otherwise'),
         dict(name='malformed_directories_are_refused', props=['C05'], tier='quick', timeout=600,
              text='Malformed directories are reported as errors: no root and several roots are refused by resolve; for a cycle, an unreachable version or an unknown name either resolve refuses or get / apply_diffs refuses '
                   'exactly the affected versions while every other version is refused or reported exactly; never a panic, in every creation order of the files.',
